@@ -12,6 +12,7 @@ import (
 )
 
 type Locker = sync.Locker
+
 // Pool is a deterministic stand-in for sync.Pool: Get returns the item put last (or
 // New()), nothing is ever dropped behind the program's back, and ResetPools empties every
 // pool so that one scenario cannot see what an earlier one left behind. Each of these is
